@@ -406,6 +406,19 @@ func runC19(c c19Case) Result {
 				return bad(class, "prove:stdout-proof-does-not-verify", "%v", err)
 			}
 		}
+	case "nonzero-or-first-document":
+		// stdin holds a complete valid document followed by something else: failing is right, and so is proving the
+		// first document and ignoring the rest - but then stdout must still be exactly one proof for that document
+		if r.ExitCode == 0 {
+			cs, err := proveStdoutProof(r.Stdout)
+			if err != nil {
+				return bad(class, "prove:stdout-not-exactly-one-proof", "%s: exit 0 but %v", c.Note, err)
+			}
+			p, err := proofFromCoords(cs)
+			if err != nil || verifyIndependent(p, e.ps.VerifyingKey, c.Hash) != nil {
+				return bad(class, "prove:stdout-proof-does-not-verify", "%s: exit 0 with a proof that does not verify for the first document's hash", c.Note)
+			}
+		}
 	case "nonzero":
 		if r.ExitCode == 0 {
 			return bad(class, "cli:"+c.Kind+":exit0", "%v (%s) exited with status 0; stderr: %s", c.Args, c.Note, tail(r.Stderr, 200))
@@ -524,6 +537,9 @@ func c19FailureCauses(e *c19Env) []c19Case {
 	} {
 		c := base
 		c.Kind, c.Note = "prove-stdin-shape", sh.note
+		if sh.note == "two-documents" || sh.note == "document-then-garbage" {
+			c.Expect = "nonzero-or-first-document"
+		}
 		c.Args, c.Stdin = []string{"prove", "--mode", e.mode, "--keys-file", "$KEYS"}, sh.stdin
 		out = append(out, c)
 	}
